@@ -121,9 +121,10 @@ func newPkg(pkg *packages.Package, u *Universe) Package {
 			if r := s.Recv(); r != nil {
 				var named *types.Named
 
-				switch t := r.Type().(type) {
+				// the receiver may be written through an alias: type A = T; func (A) M()
+				switch t := types.Unalias(r.Type()).(type) {
 				case *types.Pointer:
-					if n, ok := t.Elem().(*types.Named); ok {
+					if n, ok := types.Unalias(t.Elem()).(*types.Named); ok {
 						named = n
 					}
 				case *types.Named:
@@ -342,7 +343,7 @@ func (p *pkgInfo) MethodsOf(n *types.Named, ptr bool) []*types.Func {
 	for i := range funcs {
 		s := funcs[i].Type().(*types.Signature)
 
-		if _, ok := s.Recv().Type().(*types.Pointer); !ok {
+		if _, ok := types.Unalias(s.Recv().Type()).(*types.Pointer); !ok {
 			notPtrMethods = append(notPtrMethods, funcs[i])
 		}
 	}
